@@ -33,6 +33,7 @@ def bytesLe (a b : Bytes) : Bool := !bytesLt b a
 
 /-- overwrite `data` into `file` at offset `off`, zero-filling a hole (pwrite semantics). -/
 def writeAt (file : Bytes) (off : Nat) (data : Bytes) : Bytes :=
+  if data = [] then file else   -- a zero-length pwrite changes nothing, not even the size
   let base := if file.length < off then file ++ zeros (off - file.length) else file
   base.take off ++ data ++ base.drop (off + data.length)
 
